@@ -99,7 +99,7 @@ def ref_problems(lib, refs):
                                     "files": diff_files(a["renders"][k], a["renders"][prev[1]])})
                     break
                 prev = (st, k)
-            elif st["s"] == "to_code":
+            elif st["s"] in ("to_code", "export"):
                 k += 1
                 prev = None
             elif st["s"] not in ("touch",):
@@ -211,7 +211,7 @@ def execute(plan_or_trace, lib_by_id, refs, rundir, rng=None, neutralise=None):
         stats["interleave"].append((s.desc["family"], st["s"]))
         stepped.add(i)
         fault = ev.get("fault")
-        is_render = st["s"] in ("render", "to_code", "cli_render")
+        is_render = st["s"] in ("render", "to_code", "cli_render", "export")
         if fault == "abort":
             # aggressor: the session is abandoned here, leaving whatever it installed
             aborted.add(i)
@@ -358,7 +358,7 @@ def draw_event(rng, tr, live, last, sessions):
     ev = {"e": "step", "session": i}
     # the first session is the designated victim: it only ever receives clean faults
     victim = i == 0
-    is_render = st["s"] in ("render", "to_code", "cli_render")
+    is_render = st["s"] in ("render", "to_code", "cli_render", "export")
     if victim:
         if kinds["victim-open-fail"] and st["s"] == "add_file" and rng.random() < 0.3:
             ev["fault"] = "open-fail"
